@@ -3726,6 +3726,7 @@ class mulgrid(object):
         colmap = dict([(col.name, self.decompose_column(col.name, chars, spaces))
                        for col in columns])
         for c in self.missing_connections: self.add_connection(c)
+        self.identify_neighbours()
         self.setup_block_name_index()
         self.setup_block_connection_name_index()
         if mapping: return colmap
